@@ -138,7 +138,9 @@ From PM Require Import Model.Device Model.Daemon Proofs.DaemonLedger Proofs.Daem
 From PM Require Properties.C04 Properties.C07.
 Local Open Scope Z_scope.
 
-(* from start-up, after any list of passes: for every live client whose descriptor has not failed (no write error, no
+(* from start-up, after any list of passes (the run always returns Ok - Hang, the model's loop fuel running out, is impossible:
+   `boot` carries the device invariant DInvH with the static hypothesis nest_ok, blocks nested at most DMAX = 7 deep; no shipped
+   script nests deeper than 1, SpecBridge.shipped_max_depth): for every live client whose descriptor has not failed (no write error, no
    bytes after end-of-file), the bytes written to it so far followed by the bytes still queued are the rendering of a
    token list accepted by the recogniser (001 banner + prompt first, documented codes only, 3xx lines only inside a
    reply, a prompt only after the banner or a terminal line, nothing after 101 but unprompted replies), at rest unless a
@@ -153,7 +155,6 @@ Theorem C15_daemon_streams : forall expand_str ranged_sorted ranged_plain sorted
                   exists toks pst, dc_sent x ++ dc_to x = render toks /\ run PStart toks = Some pst /\
                     (busy (dc x) = false -> at_rest pst = true) /\ (terminals toks + b2n (busy (dc x)) = dc_lines x)%nat)
                (dm_clients st')
-    | Hang _ => True
     | _ => False
     end.
 Proof. exact daemon_streams. Qed.
